@@ -188,10 +188,10 @@ def gen_cases(rng, tier):
                 c['poses'][1]['r'] = [float(x) for x in qb]
                 c['points'] = c['points'][:2]
                 cases.append(c)
-    n_rand = 170 if tier == 'quick' else 2000
+    n_rand = 300 if tier == 'quick' else 3000
     for _ in range(n_rand):
         cases.append(_valid_case(rng))
-    n_bad = 30 if tier == 'quick' else 300
+    n_bad = 40 if tier == 'quick' else 300
     for _ in range(n_bad):
         cases.append(_malformed_case(rng))
     return cases
@@ -272,6 +272,7 @@ class _Runner:
     def transform(self, obj, arr):
         before = _bits(obj)
         abytes, ashape = arr.tobytes(), arr.shape
+        rows_in = arr.tolist()
         spec_in = _spec_of(obj)
         res = None
         try:
@@ -289,7 +290,7 @@ class _Runner:
             self.mutations.append('transform_points(pose)')
         if arr.tobytes() != abytes or arr.shape != ashape:
             self.mutations.append('transform_points(points)')
-        self.calls.append({'op': 'transform', 'in': spec_in, 'rows': arr.tolist(), 'ncols': int(arr.shape[1]), 'out': out})
+        self.calls.append({'op': 'transform', 'in': spec_in, 'rows': rows_in, 'ncols': int(ashape[1]), 'out': out})
         return res if out['status'] == 'ok' and 'bad_shape' not in out else None
 
 
